@@ -73,6 +73,32 @@ theorem flow_is_modelled :
     Gen.StoreFlow.flow = Store.modelFlow ∧ Gen.StoreFlow.gidFiltered = Store.modelFiltered ∧
     Gen.StoreFlow.dgidFiltered = DStore.modelFiltered := by decide
 
+/-- **importers share one store.**  Making an importer - the first of the process or a later one, with or without a logger -
+    never replaces a store that exists: every graph stored so far is what every importer (and every handle made through
+    it) sees afterwards; only the first importer of the process starts from the empty store -/
+theorem new_importer_changes_nothing (s : Store) (d : DStore.DStore) :
+    Store.enter (some s) = s ∧ DStore.enter (some d) = d ∧ Store.enter none = Store.init ∧ DStore.enter none = DStore.init := by
+  have hs : Gen.StoreFlow.flow.sharedStoreSurvivesNewImporter = true := rfl
+  have hd : Gen.StoreFlow.flow.disjointStoreSurvivesNewImporter = true := rfl
+  simp [Store.enter, DStore.enter, DStore.init, hs, hd]
+
+/-- … at any moments of a history: running a history with importers made before any of its requests (`mk k` = how many
+    are made before request number k) ends in the store the plain run ends in -/
+theorem importers_made_mid_history (mk : Nat → Nat) (ops : List Op) (s : Store) (k : Nat) :
+    (ops.foldl (fun (acc : Store × Nat) op =>
+        ((Store.step op (Nat.repeat (fun t => Store.enter (some t)) (mk acc.2) acc.1)).2, acc.2 + 1)) (s, k)).1
+      = ops.foldl (fun t op => (Store.step op t).2) s := by
+  have hs : ∀ t : Store, Store.enter (some t) = t := fun t => (new_importer_changes_nothing t DStore.init).1
+  have hf : (fun t : Store => Store.enter (some t)) = id := funext hs
+  have hr : ∀ n (t : Store), Nat.repeat id n t = t := by
+    intro n; induction n with
+    | zero => intro t; rfl
+    | succ n ih => intro t; simp [Nat.repeat, ih]
+  simp only [hf, hr]
+  induction ops generalizing s k with
+  | nil => rfl
+  | cons op ops ih => simp only [List.foldl]; exact ih _ _
+
 /-! ## shared store: frame -/
 
 /-- **frame (general).**  Whatever the operation — `GraphID` rewrites, direct imports of nodes that carry
